@@ -262,7 +262,9 @@ def r4b(prog, rep, config):
             if c.callee.endswith('TxDeltaListError::new') and len(c.args) == 2:
                 n += 1
                 org = mir.provenance(f, c.args[1], follow_all_call_args=True)
-                if org.has_call(r'delta_for_tx$'):
+                from props import anchors
+                ls = anchors.ledger_step(prog)
+                if org.has_call(re.escape(ls.name if ls else 'delta_for_tx') + '$'):
                     rep.ok('R4b\'', 'error-text-from-delta_for_tx#%d' % n, where=c.where(), fn=f.name, detail='err_msg derives from delta_for_tx\'s Err')
                 else:
                     rep.violation('R4b\'', 'error-text-from-delta_for_tx#%d' % n, where=c.where(), fn=f.name,
